@@ -67,6 +67,10 @@ func verifC09(maxF, maxS, faultyRuns int) {
 		for _, s := range drv.executed {
 			execCount[s]++
 		}
+		if failAt >= 0 && failAt < ops {
+			// the store failed an operation of this run
+			verifAssert(err != nil, "a failed statement or revision write is never swallowed: the run reports it")
+		}
 		var wre *WriteRevisionError
 		var see *StmtExecError
 		if errors.As(err, &see) {
